@@ -74,6 +74,53 @@ def validated_arguments_run_independent(ctx: Ctx, pid: str):
                            "is refused: an argument computed inside a method body depends on that method's run-multiplexed input, and runnable must not depend on run")
 
 
+def enable_call_defaults(ctx: Ctx, pid: str):
+    """A call without enable_call is an enabled call: every `enable_call` parameter of the call entry points (Method.__call__,
+    Methods.__call__) defaults to the constant 1, and Methods.__call__ hands its own value on."""
+    from .core import METHOD
+
+    rule = f"{pid}.enable-call-default"
+    ctx.use(METHOD)
+    try:
+        mi = ctx.repo.module(METHOD)
+    except OSError as e:
+        raise AnalysisError(rule, METHOD, f"cannot read: {e}")
+    found = []
+    for cls in [n for n in mi.tree.body if isinstance(n, ast.ClassDef)]:
+        for f in [n for n in cls.body if isinstance(n, ast.FunctionDef)]:
+            a = f.args
+            pos = a.posonlyargs + a.args
+            defaults = dict(zip([x.arg for x in pos[len(pos) - len(a.defaults):]], a.defaults))
+            defaults.update({k.arg: d for k, d in zip(a.kwonlyargs, a.kw_defaults) if d is not None})
+            names = [x.arg for x in pos + a.kwonlyargs]
+            if "enable_call" in names:
+                d = defaults.get("enable_call")
+                txt = ast.unparse(d) if d is not None else "<no default>"
+                one = d is not None and (
+                    (isinstance(d, ast.Constant) and d.value in (1, True))
+                    or (isinstance(d, ast.Call) and isinstance(d.func, ast.Name) and d.func.id in ("C", "Const") and d.args and isinstance(d.args[0], ast.Constant)
+                        and d.args[0].value == 1 and all(isinstance(x, ast.Constant) and x.value == 1 for x in d.args[1:]) and not d.keywords))
+                found.append((f"{cls.name}.{f.name}", txt, one, f.lineno))
+    ctx.floor(rule, "call entry points with an enable_call parameter", len(found), 2, METHOD)
+    for name, txt, one, ln in found:
+        ctx.check(one, rule, f"{METHOD}:{ln}", name, found=f"enable_call = {txt}", required="enable_call defaults to the constant 1 (a plain call is an enabled call)")
+    # the collection hands the caller's enable_call to the single method it wraps
+    for cls in [n for n in mi.tree.body if isinstance(n, ast.ClassDef) and n.name == "Methods"]:
+        for f in [n for n in cls.body if isinstance(n, ast.FunctionDef) and n.name == "__call__"]:
+            # by keyword, or at the position the parameter has in Method.__call__ (self not counted)
+            pos_of = None
+            for mc in [n for n in mi.tree.body if isinstance(n, ast.ClassDef) and n.name == "Method"]:
+                for mf in [n for n in mc.body if isinstance(n, ast.FunctionDef) and n.name == "__call__"]:
+                    pn = [x.arg for x in mf.args.posonlyargs + mf.args.args][1:]
+                    pos_of = pn.index("enable_call") if "enable_call" in pn else None
+            fwd = [c for c in ast.walk(f) if isinstance(c, ast.Call) and (
+                any(k.arg == "enable_call" and isinstance(k.value, ast.Name) and k.value.id == "enable_call" for k in c.keywords)
+                or (pos_of is not None and len(c.args) > pos_of and isinstance(c.args[pos_of], ast.Name) and c.args[pos_of].id == "enable_call"
+                    and not any(isinstance(x, ast.Starred) for x in c.args[:pos_of + 1])))]
+            ctx.check(bool(fwd), rule + ".forwarded", f"{METHOD}:{f.lineno}", "Methods.__call__", found=f"{len(fwd)} call(s) passing enable_call=enable_call",
+                      required="Methods.__call__ forwards its enable_call to the method it calls")
+
+
 def scheduler_consults_order(ctx: Ctx, pid: str):
     rule = f"{pid}.scheduler-consults-order"
     fns = [f for f in _module_functions(ctx, SCHED) if len(f.args.posonlyargs + f.args.args) == 4 and not f.args.vararg]
